@@ -13,6 +13,9 @@ pub mod c10;
 pub mod c11;
 pub mod c12;
 pub mod c13;
+pub mod c15;
+pub mod c16;
+pub mod store;
 pub mod c17;
 pub mod hist;
 
@@ -29,6 +32,8 @@ pub fn dispatch(args: &Args) -> i32 {
         "C11" => c11::run(args),
         "C12" => c12::run(args),
         "C13" => c13::run(args),
+        "C15" => c15::run(args),
+        "C16" => c16::run(args),
         "C17" => c17::run(args),
         "selfcheck" => {
             let ok = crate::vclock::self_check();
